@@ -120,6 +120,19 @@ make_iv(uint8_t *iv, unsigned len, int kind, uint64_t seed)
 void
 mat_raw_keys(uint64_t key_seed, uint8_t rawc[64], uint8_t rawa[160])
 {
+        // reserved seeds give structured keys (used by C19): 0x5EED0000 all zero, 0x5EED0001 all ones,
+        // 0x5EED1000 + n: only bit n set (in both the cipher and the authentication key)
+        if ((key_seed >> 16) == 0x5EED) {
+                const unsigned k = (unsigned) (key_seed & 0xFFFF);
+                memset(rawc, k == 1 ? 0xFF : 0, 64);
+                memset(rawa, k == 1 ? 0xFF : 0, 160);
+                if (k >= 0x1000) {
+                        const unsigned n = (k - 0x1000) & 127;
+                        rawc[n / 8] = (uint8_t) (1u << (n % 8));
+                        rawa[n / 8] = (uint8_t) (1u << (n % 8));
+                }
+                return;
+        }
         fill_bytes(rawc, 64, mix64(key_seed, 0xC1));
         fill_bytes(rawa, 160, mix64(key_seed, 0xA1));
 }
